@@ -444,7 +444,11 @@ func check(id, tier string) int {
 
 	// determinism self-test (quick form): the same runs in two processes at
 	// different GOMAXPROCS must produce byte-identical event logs
-	det := determinism(bin, dir, id, tier, seed, knownPath, 24)
+	detRuns := 24
+	if p.DetRuns > 0 {
+		detRuns = p.DetRuns
+	}
+	det := determinism(bin, dir, id, tier, seed, knownPath, detRuns)
 	if !det.ok {
 		fmt.Fprintf(os.Stderr, "verif: determinism self-test failed: %s\n", det.note)
 		os.RemoveAll(dir)
